@@ -52,6 +52,7 @@ fn base(name: &str, cons: Cons, cands: &[Cand]) -> Prog {
         },
         pin_m: false,
         pin_bnd: false,
+        pin_driver: false,
         toggles: vec![],
         stale: false,
         inval: false,
@@ -80,6 +81,30 @@ pub fn programs(family: &str, tier: Tier) -> Vec<Prog> {
         p.toggles = vec![2, 0];
         p.pin_bnd = true;
         p.pin_m = true;
+        p.obs_d = true;
+        out.push(p);
+    }
+    if family == "driver" || family == "all" {
+        // the driver node keeps running while the expert node is unobserved
+        let mut p = base("join/am-driver", Cons::Join, &[A, M]);
+        p.toggles = vec![0];
+        p.obs_d = true;
+        p.pin_driver = true;
+        out.push(p);
+        let mut p = base("bind/amf-driver", Cons::Bind, &[A, M, Fresh]);
+        p.toggles = vec![0];
+        p.pin_driver = true;
+        out.push(p);
+        let mut p = base("sum/ab-driver", Cons::Sum, &[A, B]);
+        p.toggles = vec![0];
+        p.pick = Pick::First;
+        p.pin_driver = true;
+        out.push(p);
+        let mut p = base("sum/am-driver-last", Cons::Sum, &[A, M]);
+        p.toggles = vec![0];
+        p.pick = Pick::Last;
+        p.add_first = false;
+        p.pin_driver = true;
         p.obs_d = true;
         out.push(p);
     }
